@@ -27,7 +27,7 @@ def spec_for(name):
 def gen_trace(recipe):
   # reference values come from a SEPARATE, identically constructed world, so that a reference execution
   # that scribbles over its arguments cannot hide (or fake) a side effect of the history under test
-  kw = dict(same_dims=recipe['same_dims'], indexed=bool(recipe.get('indexed')))
+  kw = dict(same_dims=recipe['same_dims'], indexed=bool(recipe.get('indexed')), wide=bool(recipe.get('wide')))
   ref = lifecycle.reference(lifecycle.World(recipe['est'], recipe['seed'], **kw))
   w = lifecycle.World(recipe['est'], recipe['seed'], **kw)
   events = lifecycle.run(w, recipe['ops'])
@@ -118,6 +118,11 @@ def run(ctx):
     rs.append(dict(est=name, seed=int(rng.integers(1 << 30)), same_dims=False, ops=directed_ops(name), src='directed'))
     rs.append(dict(est=name, seed=int(rng.integers(1 << 30)), same_dims=True, ops=directed_ops(name), src='directed'))
     rs.append(dict(est=name, seed=int(rng.integers(1 << 30)), same_dims=True, indexed=True, ops=directed_ops(name), src='directed'))
+  for name in ('NCA', 'LMNN', 'MLKR'):
+    for k in range(1 if ctx.quick else 4):
+      rs.append(dict(est=name, seed=int(rng.integers(1 << 30)), same_dims=True, wide=True, src='directed',
+                     ops=[['New', 1], ['Fit', 1, 1], ['Query', 1, 1], ['Fit', 1, 1], ['Clone', 1], ['Fit', 2, 1], ['Query', 2, 1],
+                          ['Pickle', 1], ['Fit', 3, 2], ['Query', 3, 2]]))
   ctx.rule = ('MC_Lifecycle exhaustive to depth %d; behaviours simulated by TLC (depth %d) executed on all 17 estimators '
               '(%d per estimator, every third with same-dimension data sets and array-valued init/prior/basis/weights/'
               'preprocessor parameters, ITML bounds and LSML weights as caller arrays) + 2 directed histories per '
